@@ -212,7 +212,7 @@ func (c *checker) run(id string) int {
 					continue
 				}
 				seen[v.Label] = true
-				rc := replayCase{Property: id, Harness: h, Label: v.Label, Inputs: v.Inputs, Kinds: v.Kinds, Sched: v.Sched, Tier: c.tierN(), Detail: v.Pos, kind: "violation"}
+				rc := replayCase{Property: id, Harness: h, Label: v.Label, Inputs: v.Inputs, Kinds: v.Kinds, Sched: v.Sched, Spawned: v.Spawned, Tier: c.tierN(), Detail: v.Pos, kind: "violation"}
 				res := gosym.RunPinnedOnce(prog, h, v.Inputs, v.Sched, c.tierN())
 				confirmed := false
 				for _, pv := range res.Violations {
@@ -262,7 +262,7 @@ func (c *checker) run(id string) int {
 				continue
 			}
 			seen[v.Label] = true
-			pendingReplay = append(pendingReplay, replayCase{Property: id, Harness: h, Label: v.Label, Inputs: v.Inputs, Kinds: v.Kinds, Sched: v.Sched, Tier: c.tierN(), Detail: v.Pos, kind: "violation"})
+			pendingReplay = append(pendingReplay, replayCase{Property: id, Harness: h, Label: v.Label, Inputs: v.Inputs, Kinds: v.Kinds, Sched: v.Sched, Spawned: v.Spawned, Tier: c.tierN(), Detail: v.Pos, kind: "violation"})
 		}
 		for l, w := range rep.Witnesses {
 			pendingReplay = append(pendingReplay, replayCase{Property: id, Harness: h, Label: l, Inputs: w.Inputs, Kinds: w.Kinds, Sched: w.Sched, Tier: c.tierN(), kind: "witness"})
@@ -367,8 +367,10 @@ func (c *checker) run(id string) int {
 				violLines = append(violLines, fmt.Sprintf("VIOLATION property=%s replay=%s", id, path))
 				fmt.Fprintf(os.Stderr, "violation: harness=%s label=deadlock %s inputs=%v (the native run hangs too)\n", rc.Harness, rc.Detail, rc.Inputs)
 				totalViol++
-			} else if rc.Label == "deadlock" || len(rc.Sched) > 0 {
-				// schedule-dependent: the native scheduler cannot be forced;
+			} else if rc.Label == "deadlock" || len(rc.Sched) > 0 || rc.Spawned {
+				// schedule-dependent (scheduler choices on the path, or
+				// simply goroutines of the code under test running beside
+				// the command loop): the native scheduler cannot be forced;
 				// confirmed by re-executing the real SSA in the engine with
 				// inputs and schedule pinned.
 				res := gosym.RunPinnedOnce(prog, rc.Harness, rc.Inputs, rc.Sched, c.tierN())
